@@ -349,6 +349,8 @@ func classify(v *felt.Felt, err error, panicked bool) string {
 		return "err:mismatch"
 	case strings.Contains(err.Error(), "key length less than"):
 		return "err:keylen"
+	case strings.Contains(err.Error(), "exceeds the trie height"):
+		return "err:badkey"
 	case strings.Contains(err.Error(), "value node before the key is consumed"):
 		return "err:earlyvalue"
 	default:
